@@ -170,6 +170,23 @@ Proof.
     + cbn [fst snd]. repeat split; auto. right. destruct (m_noauto m); eexists; split; eauto; discriminate.
 Qed.
 
+Lemma drv_copies_in cf st c s x : In x (drv_copies cf st c s) -> snd x = OCall c s.
+Proof. unfold drv_copies. intros H. apply in_map_iff in H. destruct H as (e & <- & _). reflexivity. Qed.
+
+Lemma filter_drv (f : N * omsg -> bool) cf st c s :
+  (forall x, snd x = OCall c s -> f x = false) -> filter f (drv_copies cf st c s) = [].
+Proof.
+  intros H. destruct (filter f (drv_copies cf st c s)) as [|x l] eqn:E; auto.
+  assert (Hx : In x (filter f (drv_copies cf st c s))) by (rewrite E; left; auto).
+  apply filter_In in Hx. destruct Hx as [Hx Fx]. rewrite H in Fx; [discriminate|]. eapply drv_copies_in; eauto.
+Qed.
+
+Lemma count_noreply_drv cf st c s code a s' : count_noreply ([(c, ODrv s code)] ++ drv_copies cf st c s) a s' = 0%nat.
+Proof.
+  unfold count_noreply. rewrite filter_app, app_length. rewrite filter_drv; [|intros x Hx; unfold nr_is; rewrite Hx; apply andb_false_r].
+  cbn [filter]. unfold nr_is. cbn [fst snd]. rewrite andb_false_r. reflexivity.
+Qed.
+
 Definition fwd_out (cf : cfg) (st : state) (c r : N) (m : msg) : out := (r, OFwd c m) :: eav_out cf st c r m.
 
 Lemma eav_out_in cf st c r m x : In x (eav_out cf st c r m) -> snd x = OEav c m.
@@ -372,7 +389,7 @@ Lemma limit_step cf st e :
   (forall a, count_get a (st_pend st) <= max_replies cf) -> forall a, count_get a (st_pend (fst (step cf st e))) <= max_replies cf.
 Proof.
   intros Hl a. unfold step. destruct (negb (wf_event st e)); [apply Hl|].
-  destruct e as [fds|c m|c|d|c s n al rp dq|c s n|c s rl|c|c|c]; simpl.
+  destruct e as [fds|c m|c|d|c s n al rp dq|c s n|c s rl|c|c|c s|c]; simpl.
   - apply Hl.
   - unfold dispatch, deliver. destruct (resolve st (m_dest m)) as [r|]; [|pose proof (no_owner_props cf st c m) as NP; destruct (no_owner cf st c m) as [stn on]; cbn [fst snd] in NP; destruct NP as (N1 & N2 & N3 & N4 & N5 & N6 & N7 & N8); cbn [fst]; rewrite N5; apply Hl].
     destruct ((0 <? m_nfds m) && negb (conn_fds st r)); [apply Hl|].
@@ -388,6 +405,7 @@ Proof.
     pose proof (release_name_count cf (set_names st (set_queue (st_names st) n q')) n Hl a) as R.
     destruct (release_name cf (set_names st (set_queue (st_names st) n q')) n). exact R.
   - destruct (release (st_names st) c n). simpl. apply Hl.
+  - apply Hl.
   - apply Hl.
   - apply Hl.
   - apply Hl.
@@ -498,7 +516,7 @@ Lemma step_conn cf st e : conn_rel st (fst (step cf st e)) e.
 Proof.
   unfold step. destruct (negb (wf_event st e)) eqn:W.
   - simpl. destruct e; simpl; auto. simpl in W. apply negb_true_iff in W. rewrite W. auto.
-  - apply negb_false_iff in W. destruct e as [fds|c m|c|d|c s n al rp dq|c s n|c s rl|c|c|c]; simpl.
+  - apply negb_false_iff in W. destruct e as [fds|c m|c|d|c s n al rp dq|c s n|c s rl|c|c|c s|c]; simpl.
     + intros x. unfold connected. simpl. rewrite find_conn_app. destruct (find_conn (st_conns st) x); auto. discriminate.
     + intros x. destruct (dispatch cf st c m) as [st' o] eqn:D. apply dispatch_frame in D. unfold connected. simpl. destruct D as (-> & _). auto.
     + simpl in W. rewrite W. intros x. unfold disconnect. destruct (expire_pass cf (st_now st) (drop_pending (st_pend st) c)).
@@ -512,13 +530,14 @@ Proof.
     + intros x. reflexivity.
     + intros x. reflexivity.
     + intros x. reflexivity.
+    + intros x. reflexivity.
 Qed.
 
 Lemma names_ok_step cf st e : names_ok st -> names_ok (fst (step cf st e)).
 Proof.
   intros Hn. pose proof (step_conn cf st e) as Hc. revert Hc. unfold step.
   destruct (negb (wf_event st e)) eqn:W; [auto|]. apply negb_false_iff in W.
-  destruct e as [fds|c m|c|d|c s n al rp dq|c s n|c s rl|c|c|c]; simpl; intros Hc.
+  destruct e as [fds|c m|c|d|c s n al rp dq|c s n|c s rl|c|c|c s|c]; simpl; intros Hc.
   - intros n q o H1 H2. apply Hc. simpl in H1. eapply Hn; eauto.
   - destruct (dispatch cf st c m) as [st' o] eqn:D. simpl in *. pose proof (dispatch_frame _ _ _ _ _ _ D) as (_ & _ & E & _).
     intros n q o' H1 H2. rewrite Hc. rewrite E in H1. eapply Hn; eauto.
@@ -541,9 +560,10 @@ Proof.
         apply remove_owner_in in H2. destruct H2 as [H2 _]. apply lookup_in in L. eapply Hn; eauto.
       * intros n' q' o H1 H2. rewrite Hc. eapply Hn; eauto.
     + intros n' q' o H1 H2. rewrite Hc. eapply Hn; eauto.
-  - intros n' q' o H1 H2. simpl in *. rewrite Hc. eapply Hn; eauto.  - intros n' q' o H1 H2. simpl in *. rewrite Hc. eapply Hn; eauto.
-  - intros n' q' o H1 H2. simpl in *. rewrite Hc. eapply Hn; eauto.
-  - intros n' q' o H1 H2. simpl in *. rewrite Hc. eapply Hn; eauto.
+  - intros n' q' o H1 H2. simpl in *. try rewrite Hc. eapply Hn; eauto.  - intros n' q' o H1 H2. simpl in *. try rewrite Hc. eapply Hn; eauto.
+  - intros n' q' o H1 H2. simpl in *. try rewrite Hc. eapply Hn; eauto.
+  - intros n' q' o H1 H2. simpl in *. try rewrite Hc. eapply Hn; eauto.
+  - intros n' q' o H1 H2. simpl in *. try rewrite Hc. eapply Hn; eauto.
 Qed.
 
 (* ------------------------------------------------------------------ Part 3b: what a plain send does to the table *)
@@ -685,7 +705,7 @@ Qed.
 Lemma idle_step cf st e : idle st -> idle (fst (step cf st e)).
 Proof.
   intros [Hf Hh]. unfold step. destruct (negb (wf_event st e)) eqn:W; [split; auto|]. apply negb_false_iff in W.
-  destruct e as [fds|c m|c|d|c s n al rp dq|c s n|c s rl|c|c|c]; cbn [fst].
+  destruct e as [fds|c m|c|d|c s n al rp dq|c s n|c s rl|c|c|c s|c]; cbn [fst].
   - split; auto.
   - simpl in W. rewrite !andb_true_iff in W. destruct W as [[_ W] _]. apply negb_true_iff in W.
     unfold dispatch. destruct (resolve st (m_dest m)) as [r|].
@@ -731,6 +751,7 @@ Proof.
   - split.
     + intros p Hp. cbn [st_pend] in Hp. unfold is_full. cbn [st_full]. eapply is_full_filter; [apply (Hf p Hp)|reflexivity].
     + intros n l x H1 H2. cbn [st_held] in H1. unfold is_full. cbn [st_full]. eapply is_full_filter; [apply (Hh n l x H1 H2)|reflexivity].
+  - split; auto.
   - split; auto.
 Qed.
 
@@ -978,7 +999,7 @@ Proof.
   intros I Hn Hfi Hnh Hp. pose proof (step_conn cf st e) as Hc. revert Hc. unfold step.
   destruct (negb (wf_event st e)) eqn:W; cbn [fst snd].
   - (* ill-formed: nothing happens *)
-    intros _. destruct e as [fds|c m|c|d|c s n al rp dq|c s n|c s rl|c|c|c]; try discriminate.
+    intros _. destruct e as [fds|c m|c|d|c s n al rp dq|c s n|c s rl|c|c|c s|c]; try discriminate.
     + apply (Inv_same cf st tr st); auto. intros a b s. simpl. rewrite !andb_false_r. reflexivity.
     + apply Inv_noop_disconnect; auto; simpl in W; apply negb_true_iff in W; exact W.
     + apply (Inv_same cf st tr st); auto; intros; apply age_other; exact Logic.I.
@@ -987,7 +1008,8 @@ Proof.
     + apply (Inv_same cf st tr st); auto; intros; apply age_other; exact Logic.I.
     + apply (Inv_same cf st tr st); auto; intros; apply age_other; exact Logic.I.
     + apply (Inv_same cf st tr st); auto; intros; apply age_other; exact Logic.I.
-  - apply negb_false_iff in W. destruct e as [fds|c m|c|d|c s n al rp dq|c s n|c s rl|c|c|c]; cbn [fst snd]; intros Hc.
+    + apply (Inv_same cf st tr st); auto; intros; apply age_other; exact Logic.I.
+  - apply negb_false_iff in W. destruct e as [fds|c m|c|d|c s n al rp dq|c s n|c s rl|c|c|c s|c]; cbn [fst snd]; intros Hc.
     + apply (Inv_same cf st tr); auto; intros; apply age_other; exact Logic.I.
     + simpl in W. rewrite !andb_true_iff in W. destruct W as [[[[W _] _] _] _].
       destruct (dispatch cf st c m) as [st' o] eqn:D. cbn [fst snd]. apply (Inv_send cf st); auto.
@@ -1005,6 +1027,8 @@ Proof.
         try solve [intros x Hx; simpl in Hc; rewrite Hc; auto]; try solve [intros; apply age_other; exact Logic.I].
     + apply (Inv_same cf st tr); auto;
         try solve [intros x Hx; simpl in Hc; rewrite Hc; auto]; try solve [intros; apply age_other; exact Logic.I].
+    + apply (Inv_same cf st tr); auto;
+        try solve [intros x Hx; simpl in Hc; try rewrite Hc; auto]; try solve [intros; apply age_other; exact Logic.I].
 Qed.
 
 (* runs *)
@@ -1042,7 +1066,7 @@ Lemma no_held_step' cf st e :
   st_held st = [] -> match e with ESend _ m => auto_starts m = false | _ => True end -> st_held (fst (step cf st e)) = [].
 Proof.
   intros Hh Hp. unfold step. destruct (negb (wf_event st e)); [exact Hh|].
-  destruct e as [fds|c m|c|d|c s n al rp dq|c s n|c s rl|c|c|c]; cbn [fst]; try exact Hh.
+  destruct e as [fds|c m|c|d|c s n al rp dq|c s n|c s rl|c|c|c s|c]; cbn [fst]; try exact Hh.
   - unfold dispatch. destruct (resolve st (m_dest m)) as [r|].
     + destruct (deliver_frame cf st c r m) as [_ F]. rewrite F. exact Hh.
     + unfold auto_starts in Hp.
@@ -1173,12 +1197,12 @@ Proof.
   assert (Hop1 : opens a b s e1 o1 = false).
   { assert (Hin : In e1 (rev h')) by (rewrite <- trace_events with (cf := cf), <- Hrest, map_app; apply in_app_iff; right; left; auto).
     apply in_rev in Hin. unfold plain in Hp'. rewrite forallb_forall in Hp'. specialize (Hp' _ Hin).
-    destruct e1 as [|c1 m1| | | | | | | |]; try discriminate. simpl in A1, Hp' |- *.
+    destruct e1 as [|c1 m1| | | | | | | | |]; try discriminate. simpl in A1, Hp' |- *.
     rewrite !andb_true_iff, !N.eqb_eq, negb_true_iff, N.eqb_neq in A1. destruct A1 as [[[_ R] Z] _].
     unfold plain_msg in Hp'. apply andb_true_iff in Hp'. destruct Hp' as [Hc _].
     destruct (is_call m1); [|rewrite andb_false_r; auto]. simpl in Hc. apply N.eqb_eq in Hc. congruence. }
   destruct (opened_in tr2 a b s) eqn:O; auto. exfalso.
-  destruct e2 as [|c2 m2| | | | | | | |]; try discriminate. simpl in A2.
+  destruct e2 as [|c2 m2| | | | | | | | |]; try discriminate. simpl in A2.
   rewrite !andb_true_iff, !N.eqb_eq, negb_true_iff, N.eqb_neq in A2. destruct A2 as [[[C2 R2] Z2] F2]. subst c2 s.
   destruct (only_addressee cf h' b m2 a Hr Hp' Z2 F2) as [Hopen _].
   apply Hopen. rewrite <- Hrest. apply age_none_until_opened; auto.
@@ -1340,7 +1364,7 @@ Proof.
   intros Hp Hc. destruct (ledger_invariant cf h Hp) as [[I1 I2 I3 I4 I5] _].
   destruct (wf_event (state_of cf h) e) eqn:W; [|rewrite step_illformed in Hc; auto; unfold count_noreply in Hc; simpl in Hc; lia].
   unfold trace_of at 2. rewrite run_snoc. cbn [snd]. fold (trace_of cf h).
-  destruct e as [fds|c m|c|d|c sr n al rp dq|c sr n|c sr rl|c|c|c].
+  destruct e as [fds|c m|c|d|c sr n al rp dq|c sr n|c sr rl|c|c|c sr|c].
   - unfold step in Hc. rewrite W in Hc. unfold count_noreply in Hc. simpl in Hc. lia.
   - rewrite step_send in Hc; auto. rewrite dispatch_no_noreply in Hc. lia.
   - simpl in W. rewrite disconnect_output in *; auto.
@@ -1363,9 +1387,13 @@ Proof.
             | Some t => if timed_out (reply_timeout cf) (t + d) then None else Some (t + d) | None => None end).
     rewrite A. replace (st_now (state_of cf h) - p_added q + d) with (st_now (state_of cf h) + d - p_added q) by lia.
     rewrite He. reflexivity.
-  - unfold step in Hc. rewrite W in Hc. cbn [negb] in Hc. destruct (acquire _ c al rp dq) in Hc. rewrite release_name_nil in Hc by (apply no_held_all; exact Hp). unfold count_noreply, nr_is in Hc. simpl in Hc. destruct (c =? a); simpl in Hc; lia.
-  - unfold step in Hc. rewrite W in Hc. cbn [negb] in Hc. destruct (release _ c n) in Hc. unfold count_noreply, nr_is in Hc. simpl in Hc. destruct (c =? a); simpl in Hc; lia.  - unfold step in Hc. rewrite W in Hc. cbn [negb] in Hc. unfold count_noreply, nr_is in Hc. simpl in Hc. destruct (c =? a); simpl in Hc; lia.  - unfold step in Hc. rewrite W in Hc. cbn [negb] in Hc. unfold count_noreply in Hc. simpl in Hc. lia.
+  - unfold step in Hc. rewrite W in Hc. cbn [negb] in Hc. destruct (acquire _ c al rp dq) in Hc. rewrite release_name_nil in Hc by (apply no_held_all; exact Hp).
+    cbn [snd] in Hc. rewrite app_nil_l in Hc. rewrite count_noreply_drv in Hc. lia.
+  - unfold step in Hc. rewrite W in Hc. cbn [negb] in Hc. destruct (release _ c n) in Hc. cbn [snd] in Hc. rewrite count_noreply_drv in Hc. lia.
+  - unfold step in Hc. rewrite W in Hc. cbn [negb snd] in Hc. rewrite count_noreply_drv in Hc. lia.
   - unfold step in Hc. rewrite W in Hc. cbn [negb] in Hc. unfold count_noreply in Hc. simpl in Hc. lia.
+  - unfold step in Hc. rewrite W in Hc. cbn [negb] in Hc. unfold count_noreply in Hc. simpl in Hc. lia.
+  - unfold step in Hc. rewrite W in Hc. cbn [negb snd] in Hc. rewrite count_noreply_drv in Hc. lia.
   - unfold step in Hc. rewrite W in Hc. cbn [negb] in Hc. unfold count_noreply in Hc. simpl in Hc. lia.
 Qed.
 
@@ -1457,15 +1485,17 @@ Lemma step_nonsend_no_fwd cf st e x :
   match e with ESend _ _ => False | _ => True end -> In x (snd (step cf st e)) -> match snd x with OFwd _ _ => False | _ => True end.
 Proof.
   intros Hh He. unfold step. destruct (negb (wf_event st e)); [intros []|].
-  destruct e as [fds|c m|c|d|c s n al rp dq|c s n|c s rl|c|c|c]; try tauto.
+  destruct e as [fds|c m|c|d|c s n al rp dq|c s n|c s rl|c|c|c s|c]; try tauto.
   - intros [].
   - unfold disconnect. rewrite expire_pass_spec. cbn [snd]. intros H. apply in_map_iff in H. destruct H as (p & <- & _). exact I.
   - unfold tick. rewrite expire_pass_spec. cbn [snd]. intros H. apply in_map_iff in H. destruct H as (p & <- & _). exact I.
-  - destruct (acquire _ c al rp dq). rewrite release_name_nil by exact Hh. intros [<-|[]]. exact I.
-  - destruct (release (st_names st) c n). intros [<-|[]]. exact I.
-  - intros [<-|[]]. exact I.
+  - destruct (acquire _ c al rp dq). rewrite release_name_nil by exact Hh. cbn [snd]. rewrite app_nil_l.
+    intros [<-|H]; [exact I|]. apply drv_copies_in in H. rewrite H. exact I.
+  - destruct (release (st_names st) c n). cbn [snd]. intros [<-|H]; [exact I|]. apply drv_copies_in in H. rewrite H. exact I.
+  - cbn [snd]. intros [<-|H]; [exact I|]. apply drv_copies_in in H. rewrite H. exact I.
   - intros [].
   - intros [].
+  - cbn [snd]. intros [<-|H]; [exact I|]. apply drv_copies_in in H. rewrite H. exact I.
   - intros [].
 Qed.
 
@@ -1500,7 +1530,7 @@ Proof.
   set (st := state_of cf h). set (o := snd (step cf st e)).
   assert (Hin : inbox ((e, o) :: trace_of cf h) b = inbox (trace_of cf h) b ++ map snd (filter (fun x => fst x =? b) o)) by reflexivity.
   rewrite Hin, filter_app, IH.
-  destruct e as [fds|c m|c|d|c s n al rp dq|c s n|c s rl|c|c|c];
+  destruct e as [fds|c m|c|d|c s n al rp dq|c s n|c s rl|c|c|c s|c];
     try (rewrite no_fwd_filter; [rewrite app_nil_r; reflexivity|intros x; apply step_nonsend_no_fwd; [exact Hnh|exact I]]).
   assert (Hpo : passed_on ((ESend c m, o) :: trace_of cf h) a b = passed_on (trace_of cf h) a b ++ (if (c =? a) && fwd_to o b then [m] else [])) by reflexivity.
   rewrite Hpo, map_app. f_equal.
@@ -1623,12 +1653,18 @@ Proof.
   rewrite filter_app, app_length. unfold hkey at 1. cbn [fst snd]. destruct ((c =? a) && (m_serial m =? s)); simpl; lia.
 Qed.
 
+Lemma err_drv cf st c s code a s' : filter (err_is a s') ([(c, ODrv s code)] ++ drv_copies cf st c s) = [].
+Proof.
+  rewrite filter_app. rewrite filter_drv; [|intros x Hx; unfold err_is; rewrite Hx; apply andb_false_r].
+  cbn [filter]. unfold err_is. cbn [fst snd]. rewrite andb_false_r. reflexivity.
+Qed.
+
 Lemma errors_step cf st e a s :
   (length (filter (err_is a s) (snd (step cf st e))) + count_gs a s (st_pend (fst (step cf st e))) + hcount a s (st_held (fst (step cf st e)))
    <= count_gs a s (st_pend st) + hcount a s (st_held st) + (if is_send_as a s e then 1 else 0))%nat.
 Proof.
   unfold step. destruct (negb (wf_event st e)); [simpl; lia|].
-  destruct e as [fds|c m|c|d|c sr n al rp dq|c sr n|c sr rl|c|c|c]; cbn [is_send_as].
+  destruct e as [fds|c m|c|d|c sr n al rp dq|c sr n|c sr rl|c|c|c sr|c]; cbn [is_send_as].
   - simpl. lia.
   - unfold dispatch. destruct (resolve st (m_dest m)) as [r|].
     + pose proof (deliver_gs cf st c r m a s) as D. destruct (deliver_frame cf st c r m) as [_ Fh].
@@ -1654,8 +1690,8 @@ Proof.
   - unfold tick. rewrite expire_pass_spec. cbn [fst snd st_pend st_held].
     pose proof (expire_partition a s (expired cf (st_now st + d)) (st_pend st)). lia.
   - destruct (acquire _ c al rp dq) as [q' code]. set (st1 := set_names st (set_queue (st_names st) n q')).
-    assert (Ed : forall o, length (filter (err_is a s) (o ++ [(c, ODrv sr code)])) = length (filter (err_is a s) o)).
-    { intros o. rewrite filter_app, app_length. cbn [filter]. unfold err_is at 2. cbn [fst snd]. rewrite andb_false_r. simpl. lia. }
+    assert (Ed : forall o st', length (filter (err_is a s) (o ++ [(c, ODrv sr code)] ++ drv_copies cf st' c sr)) = length (filter (err_is a s) o)).
+    { intros o st'. rewrite filter_app, app_length, err_drv. simpl. lia. }
     unfold release_name. change (st_held st1) with (st_held st). change (st_pend st) with (st_pend st1).
     destruct (held_for (st_held st) n) as [|x0 l0] eqn:El; [cbn [fst snd]; rewrite Ed; simpl; lia|].
     destruct (lookup (st_names st1) n) as [[|ow q]|]; try (cbn [fst snd]; rewrite Ed; simpl; lia).
@@ -1665,10 +1701,11 @@ Proof.
     destruct (release_held cf st1' (x0 :: l0) (o_conn ow)) as [st2 o2]. cbn [fst snd] in *. rewrite Ed, Fh.
     pose proof (hcount_set_held a s (st_held st) n []) as H. rewrite El in H. cbn [st_held st1' with_held].
     change (st_pend st1') with (st_pend st1) in G. change (length (filter (hkey a s) [])) with 0%nat in H. lia.
-  - destruct (release (st_names st) c n). simpl. unfold err_is. cbn [fst snd]. rewrite andb_false_r. simpl. lia.
-  - simpl. unfold err_is. cbn [fst snd]. rewrite andb_false_r. simpl. lia.
+  - destruct (release (st_names st) c n). cbn [fst snd]. rewrite err_drv. simpl. lia.
+  - cbn [fst snd]. rewrite err_drv. simpl. lia.
   - simpl. lia.
   - simpl. lia.
+  - cbn [fst snd]. rewrite err_drv. simpl. lia.
   - simpl. lia.
 Qed.
 
@@ -1810,4 +1847,52 @@ Proof.
   assert (Ho : opens a b (m_serial m) (ESend a m) o = true).
   { simpl. rewrite !N.eqb_refl, Hc, Hn, Hf. reflexivity. }
   rewrite Ho. reflexivity.
+Qed.
+
+(* ------------------------------------------------------------------ C05: messages addressed to the bus driver are unicast too *)
+Lemma drv_eav_list_spec st rules c : forall seen,
+  NoDup (drv_eav_list st rules c seen) /\
+  forall e, In e (drv_eav_list st rules c seen) ->
+    ~ In e seen /\ exists rl, In (e, rl) rules /\ drv_rule_matches st rl c = true.
+Proof.
+  induction rules as [|[o rl] rest IH]; intros seen; simpl.
+  - split; [constructor|intros e []].
+  - destruct (drv_rule_matches st rl c && negb (existsb (N.eqb o) seen)) eqn:E.
+    + apply andb_true_iff in E. destruct E as [Em Es]. apply negb_true_iff in Es.
+      destruct (IH (o :: seen)) as [Hnd Hall]. split.
+      * constructor; auto. intros Hin. apply Hall in Hin. destruct Hin as [Hn _]. apply Hn. left; auto.
+      * intros e [<-|He].
+        -- split; [intros Hin; apply existsb_eqb_in in Hin; congruence|exists rl; auto].
+        -- destruct (Hall e He) as [Hn (rl' & Hr & Hm)]. split; [intros Hin; apply Hn; right; auto|exists rl'; auto].
+    + destruct (IH seen) as [Hnd Hall]. split; auto. intros e He. destruct (Hall e He) as [Hn (rl' & Hr & Hm)]. split; auto. exists rl'; auto.
+Qed.
+
+(* a copy of a call to the driver goes only to a connection holding an eavesdrop='true' rule that matches it, one per connection *)
+Theorem driver_call_copies cf st c s x :
+  In x (drv_copies cf st c s) ->
+  snd x = OCall c s /\ exists rl, In (fst x, rl) (st_rules st) /\ r_eaves rl = true /\ drv_rule_matches st rl c = true.
+Proof.
+  intros H. split; [eapply drv_copies_in; eauto|]. unfold drv_copies in H. apply in_map_iff in H. destruct H as (e & <- & He).
+  apply filter_In in He. destruct He as [He _]. cbn [fst]. unfold drv_eavesdroppers in He.
+  destruct (drv_eav_list_spec st (st_rules st) c []) as [_ Hall]. destruct (Hall e He) as [_ (rl & Hr & Hm)].
+  exists rl. split; auto. split; auto. unfold drv_rule_matches in Hm. rewrite !andb_true_iff in Hm. tauto.
+Qed.
+
+Theorem driver_call_copies_once cf st c s : NoDup (map fst (drv_copies cf st c s)).
+Proof.
+  unfold drv_copies. rewrite map_map. cbn [fst]. rewrite map_id. apply NoDup_filter.
+  destruct (drv_eav_list_spec st (st_rules st) c []) as [Hnd _]. exact Hnd.
+Qed.
+
+(* the output of a driver step: the reply to the caller, then only such copies *)
+Theorem driver_step_output cf st e c s :
+  wf_event st e = true ->
+  match e with EReleaseName c' s' _ | EAddMatch c' s' _ | EDriverCall c' s' => c' = c /\ s' = s | _ => False end ->
+  exists code st', snd (step cf st e) = [(c, ODrv s code)] ++ drv_copies cf st' c s.
+Proof.
+  intros W He. unfold step. rewrite W. cbn [negb].
+  destruct e as [fds|c0 m|c0|d|c0 s0 n al rp dq|c0 s0 n|c0 s0 rl|c0|c0|c0 s0|c0]; try tauto; destruct He as [-> ->].
+  - destruct (release (st_names st) c n) as [nm code]. cbn [snd]. eauto.
+  - cbn [snd]. eauto.
+  - cbn [snd]. eauto.
 Qed.
